@@ -405,6 +405,8 @@ class C02(runner.Check):
 
 				def call():
 					try:
+						if op.get("thread"):
+							repo.numba_seed(core.derive_seed(case.get("seed", 0), "thread", oi))
 						box["Y"] = fn(X, start=s, end=e, n=op["n"], random_state=op["rs"])
 					except BaseException as ex:
 						box["exc"] = ex
